@@ -13,6 +13,12 @@ package dastard
 // signed, droppedFrames and externalTriggerRowcounts are observable. A client task sends
 // real ConfigureMixFraction requests at tape-chosen times.
 //
+// The source's device table holds one or several cards (card numbers as the driver might
+// enumerate them: {0}, {0,1}, {1}, {2,5}, ...), of which exactly one, drawn per run, is named in
+// ActiveCards (the reader refuses more than one active device by design). The cards that are
+// not active keep whatever their last run left behind (or nothing, if they never ran) and have
+// a card of another geometry behind them; the oracle is the same whichever card is active.
+//
 // Oracle (property C04): see c04World.checkBlock. Rules:
 //   C04.shape            all segments of a block share length, frame index and time; signed
 //                        on error channels, unsigned on feedback channels
@@ -78,8 +84,10 @@ type c04World struct {
 	truth *lanceroSimTruth
 	card  *lanceroSimCard
 	ls    *LanceroSource
+	table *c04CardTable
 
 	runIndex             int // which run of the source object this is (0-based)
+	active               int // number of the card that is active in this run
 	rows, cols, W, nchan int
 	nsamp                int
 	fpt                  int
@@ -120,34 +128,83 @@ func (w *c04World) chanOf(idx int) int {
 	return 2 * (c*w.rows + r)
 }
 
+// c04CardTable is the harness's record of the source's device table: the card numbers and,
+// per card, the number of rows of the last run in which it was active (0: never active).
+type c04CardTable struct {
+	cards    []int
+	lastRows map[int]int
+	idle     map[int]*lanceroSimCard // the card behind a device that has not been active yet
+	ran      map[int]*lanceroSimCard // the (stopped) card of a device's last completed run
+	ranUse   map[int][3]int          // its starts / reads / releases when that run had stopped
+}
+
+// noteUse counts, as a probe, the cards that were started, read or released while they were not
+// the active card (no rule: the property speaks of the active card's data only).
+func (ct *c04CardTable) noteUse(active int) {
+	for _, n := range ct.cards {
+		if n == active {
+			continue
+		}
+		if c := ct.idle[n]; c != nil && (c.starts > 0 || c.nReads > 0 || c.nReleases > 0) {
+			simrt.Hit("inactive-card-was-used")
+		}
+		if c := ct.ran[n]; c != nil && ct.ranUse[n] != [3]int{c.starts, c.nReads, c.nReleases} {
+			simrt.Hit("inactive-card-was-used")
+		}
+	}
+}
+
+// c04CardTables: what EnumerateLanceroDevices may find. Entry 0 is the single card 0 of the
+// earlier versions of this world (a minimised tape ends up there).
+var c04CardTables = [][]int{{0}, {0, 1}, {1}, {2, 5}, {0, 3}, {1, 2}, {0, 1, 2}, {3}}
+
 func c04Body(env *simrt.Env) {
 	// One LanceroSource object lives through 1-3 runs: run, Stop, Configure again (same or another
-	// geometry, NSAMP, line period), Start again. Every run has its own card and ground truth and
-	// is checked with the full oracle.
+	// geometry, NSAMP, line period, active card), Start again. Every run has its own card and
+	// ground truth and is checked with the full oracle.
 	nRuns := 1 + simrt.Draw(3)
+	table := &c04CardTable{cards: c04CardTables[simrt.Draw(len(c04CardTables))], lastRows: map[int]int{}, idle: map[int]*lanceroSimCard{}, ran: map[int]*lanceroSimCard{}, ranUse: map[int][3]int{}}
 	resetViper(env.Dir)
 	startSinks(nil, func() int { return 0 })
 
-	// what NewLanceroSource does, with a simulated card as device 0
+	// what NewLanceroSource does, with simulated cards as the devices found
 	ls := new(LanceroSource)
 	ls.name = "Lancero"
 	ls.nsamp = 1
 	ls.channelsPerPixel = 2
-	ls.devices = map[int]*LanceroDevice{0: {devnum: 0}}
-	ls.ncards = 1
+	ls.devices = make(map[int]*LanceroDevice)
+	for _, n := range table.cards {
+		// a card that is open but idle, with a geometry and contents of its own: data taken from it by
+		// mistake cannot pass for the active card's
+		rows, cols := 2+(5*n+3)%11, 1+(n+2)%4
+		t := lanceroSimNewTruth(rows, cols, (n+1)%4)
+		t.trig = make([]bool, 64*rows)
+		idle := lanceroSimNewCard(env, t, time.Duration(rows)*2560*time.Nanosecond)
+		table.idle[n] = idle
+		ls.devices[n] = &LanceroDevice{devnum: n, card: idle}
+		ls.ncards++
+	}
+	env.Op("device table of the source: cards %v", table.cards)
+	if len(table.cards) > 1 {
+		simrt.Hit("several-cards-in-device-table")
+	}
+	if table.cards[0] != 0 {
+		simrt.Hit("no-card-0-in-device-table")
+	}
 
 	var prev *c04World
 	var samples []interface{}
 	for k := 0; k < nRuns; k++ {
-		w := c04NewWorld(env, ls, k, nRuns, prev)
+		w := c04NewWorld(env, ls, table, k, nRuns, prev)
 		w.run(k == nRuns-1)
 		samples = append(samples, w.sample())
 		prev = w
 	}
+	table.noteUse(prev.active)
 	if nRuns == 1 {
-		env.Sample(samples[0])
+		env.Sample(map[string]interface{}{"cards": table.cards, "run": samples[0]})
 	} else {
-		env.Sample(map[string]interface{}{"runs_on_one_source_object": samples})
+		env.Sample(map[string]interface{}{"cards": table.cards, "runs_on_one_source_object": samples})
 	}
 }
 
@@ -180,7 +237,20 @@ func c04Geometry(k int, prev *c04World) (rows, cols, how int) {
 	return 2 + simrt.Draw(11), 1 + simrt.Draw(4), how
 }
 
-func c04NewWorld(env *simrt.Env, ls *LanceroSource, k, nRuns int, prev *c04World) *c04World {
+func c04NewWorld(env *simrt.Env, ls *LanceroSource, table *c04CardTable, k, nRuns int, prev *c04World) *c04World {
+	// the active card of this run: any card of the table; in a later run mostly another one
+	active := table.cards[0]
+	if n := len(table.cards); n > 1 {
+		if k == 0 || simrt.Draw(4) == 3 {
+			active = table.cards[simrt.Draw(n)]
+		} else { // another card than in the run before
+			i := 0
+			for table.cards[i] != prev.active {
+				i++
+			}
+			active = table.cards[(i+1+simrt.Draw(n-1))%n]
+		}
+	}
 	rows, cols, how := c04Geometry(k, prev)
 	fptMenu := []int{3, 2, 4, 5, 8, 13, 30}
 	fpt := fptMenu[simrt.Draw(len(fptMenu))]
@@ -190,7 +260,7 @@ func c04NewWorld(env *simrt.Env, ls *LanceroSource, k, nRuns int, prev *c04World
 		fpt, nsamp = prev.fpt, prev.nsamp
 	}
 	style := simrt.Draw(4)
-	w := &c04World{env: env, ls: ls, runIndex: k, rows: rows, cols: cols, W: rows * cols, nchan: 2 * rows * cols, nsamp: nsamp, fpt: fpt}
+	w := &c04World{env: env, ls: ls, table: table, active: active, runIndex: k, rows: rows, cols: cols, W: rows * cols, nchan: 2 * rows * cols, nsamp: nsamp, fpt: fpt}
 	// the line period (in 8 ns clocks) that gives about fpt frames per 50 ms reader tick
 	w.lsync = int(math.Round(6250000 / float64(fpt*rows)))
 	w.framePeriod = time.Duration(w.lsync*rows*8) * time.Nanosecond
@@ -223,9 +293,33 @@ func c04NewWorld(env *simrt.Env, ls *LanceroSource, k, nRuns int, prev *c04World
 		if prev.rows != rows {
 			simrt.Hit("restart-with-other-row-count")
 		}
+		if prev.active != active {
+			simrt.Hit("restart-with-other-active-card")
+		}
 		what = " (restart of the same source object: " + what + ")"
 	}
-	env.Op("run %d of %d%s: geometry %d columns x %d rows, about %d frames per reader tick (lsync %d), NSAMP %d, content style %d, %d blocks", k+1, nRuns, what, cols, rows, fpt, w.lsync, nsamp, style, nBlocks)
+	if active == 0 {
+		simrt.Hit("active-card-0")
+	} else {
+		simrt.Hit("active-card-not-0")
+		if len(table.cards) > 1 {
+			simrt.Hit("active-card-not-0-of-several")
+		}
+		// what the harness knows of card 0 (it never looks into the source for this)
+		switch r0, have := table.lastRows[0]; {
+		case table.cards[0] != 0:
+			simrt.Hit("active-card-not-0:no-card-0")
+		case !have:
+			simrt.Hit("active-card-not-0:card-0-never-active")
+		case r0 == rows:
+			simrt.Hit("active-card-not-0:card-0-last-ran-with-same-rows")
+		case r0 < rows:
+			simrt.Hit("active-card-not-0:card-0-last-ran-with-fewer-rows")
+		default:
+			simrt.Hit("active-card-not-0:card-0-last-ran-with-more-rows")
+		}
+	}
+	env.Op("run %d of %d%s: active card %d of %v, geometry %d columns x %d rows, about %d frames per reader tick (lsync %d), NSAMP %d, content style %d, %d blocks", k+1, nRuns, what, active, table.cards, cols, rows, fpt, w.lsync, nsamp, style, nBlocks)
 	return w
 }
 
@@ -241,11 +335,17 @@ func (w *c04World) run(last bool) {
 		simrt.Fail("harness.setup", "harness:cringe-globals", "%v", err)
 	}
 	cringeGlobalsPath = cgPath
-	ls.devices[0].card = w.card
+	// the active card of this run gets the run's card; the other devices keep what they have (the
+	// stopped card of their last run, or the idle card they were opened with)
+	w.table.noteUse(-1)
+	ls.devices[w.active].card = w.card
+	delete(w.table.idle, w.active)
+	delete(w.table.ran, w.active)
+	w.table.lastRows[w.active] = rows
 
-	config := LanceroSourceConfig{FiberMask: 0xffff, CardDelay: []int{1}, ActiveCards: []int{0}, FirstRow: 1}
+	config := LanceroSourceConfig{FiberMask: 0xffff, CardDelay: []int{1}, ActiveCards: []int{w.active}, FirstRow: 1}
 	if err := ls.Configure(&config); err != nil {
-		simrt.Fail("harness.setup", "harness:configure", "run %d: Configure: %v", w.runIndex+1, err)
+		simrt.Fail("harness.setup", "harness:configure", "run %d: Configure with ActiveCards %v of %v: %v", w.runIndex+1, config.ActiveCards, w.table.cards, err)
 	}
 
 	// the steps of Start()
@@ -255,8 +355,8 @@ func (w *c04World) run(last bool) {
 	if err := ls.Sample(); err != nil {
 		simrt.Fail("harness.setup", "harness:sample", "run %d: Sample on a card that delivers well-formed frames: %v", w.runIndex+1, err)
 	}
-	if got := ls.devices[0].ncols; got != cols || ls.nchan != w.nchan {
-		simrt.Fail("C04.geometry", "lancero:geometry-misdetected", "run %d: sampling a %d-column x %d-row card found %d columns, %d channels", w.runIndex+1, cols, rows, got, ls.nchan)
+	if got := ls.devices[w.active].ncols; got != cols || ls.nchan != w.nchan {
+		simrt.Fail("C04.geometry", "lancero:geometry-misdetected", "run %d: sampling a %d-column x %d-row card (card %d) found %d columns, %d channels", w.runIndex+1, cols, rows, w.active, got, ls.nchan)
 	}
 	if err := ls.PrepareChannels(); err != nil {
 		simrt.Fail("harness.setup", "harness:prepare-channels", "%v", err)
@@ -336,12 +436,13 @@ func (w *c04World) run(last bool) {
 			simrt.Fail("C04.stop", "lancero:stop-failed", "run %d: Stop on the running source: %v", w.runIndex+1, err)
 		}
 		env.Op("run %d: stopped, %d blocks in all", w.runIndex+1, w.blocks)
+		w.table.ran[w.active], w.table.ranUse[w.active] = w.card, [3]int{w.card.starts, w.card.nReads, w.card.nReleases}
 	}
 	w.finish()
 }
 
 func (w *c04World) sample() interface{} {
-	return map[string]interface{}{"columns": w.cols, "rows": w.rows, "frames_per_tick": w.fpt, "nsamp": w.nsamp, "blocks": w.blocks, "samples_per_channel": w.samples,
+	return map[string]interface{}{"active_card": w.active, "columns": w.cols, "rows": w.rows, "frames_per_tick": w.fpt, "nsamp": w.nsamp, "blocks": w.blocks, "samples_per_channel": w.samples,
 		"first_emitted_frame": w.firstEmitted, "driver_reads": w.card.nReads, "largest_read_bytes": w.card.maxChunk, "mix_requests": w.mixRequests,
 		"trigger_edges": w.nTrigEdges, "gaps": len(w.card.gaps), "blocks_reporting_loss": len(w.dropBlocks)}
 }
@@ -695,6 +796,9 @@ func (w *c04World) checkBlock(blk *dataBlock) {
 					if w.cols > 1 {
 						simrt.Hit("ext-trigger-edge-cols>1")
 					}
+					if w.active != 0 {
+						simrt.Hit("ext-trigger-edge-active-card-not-0")
+					}
 					if j == 0 && r == 0 {
 						simrt.Hit("ext-trigger-edge-first-row-of-block")
 					}
@@ -706,10 +810,7 @@ func (w *c04World) checkBlock(blk *dataBlock) {
 		w.gotTrig = append(w.gotTrig, blk.externalTriggerRowcounts...)
 	}
 	if !w.trigUnchecked {
-		colsClass := "ncols=1"
-		if w.cols > 1 {
-			colsClass = "ncols>1"
-		}
+		colsClass := w.trigClass()
 		for i := 0; i < len(w.gotTrig) && i < len(w.wantTrig); i++ {
 			if w.gotTrig[i] != w.wantTrig[i] {
 				sig := "lancero:ext-trigger-count-wrong:" + colsClass
@@ -717,16 +818,19 @@ func (w *c04World) checkBlock(blk *dataBlock) {
 					if db == w.wantTrigBlock[i] {
 						// the edge lies in a block that reports a loss: the count and the block's frame numbers disagree
 						sig = "lancero:ext-trigger-count-disagrees-with-frame-numbers-of-loss-block"
+						if w.active != 0 {
+							sig += ":active-card-not-0"
+						}
 					}
 				}
-				simrt.Fail("C04.ext-trigger", sig, "external trigger #%d is reported as count %d = frame %d row %d; the flag rose in frame %d row %d (count %d) [%d columns x %d rows; by block %d reported %v, rising edges %v]",
-					i, w.gotTrig[i], w.gotTrig[i]/int64(w.rows), w.gotTrig[i]%int64(w.rows), w.wantTrig[i]/int64(w.rows), w.wantTrig[i]%int64(w.rows), w.wantTrig[i], w.cols, w.rows, b, w.gotTrig, w.wantTrig)
+				simrt.Fail("C04.ext-trigger", sig, "external trigger #%d is reported as count %d = frame %d row %d; the flag rose in frame %d row %d (count %d) [card %d of %v, %d columns x %d rows; by block %d reported %v, rising edges %v]",
+					i, w.gotTrig[i], w.gotTrig[i]/int64(w.rows), w.gotTrig[i]%int64(w.rows), w.wantTrig[i]/int64(w.rows), w.wantTrig[i]%int64(w.rows), w.wantTrig[i], w.active, w.table.cards, w.cols, w.rows, b, w.gotTrig, w.wantTrig)
 			}
 		}
 		if len(w.gotTrig) > len(w.wantTrig) {
 			i := len(w.wantTrig)
-			simrt.Fail("C04.ext-trigger", "lancero:ext-trigger-invented:"+colsClass, "external trigger #%d is reported as count %d = frame %d row %d, but the flag has had only %d rising edges so far [%d columns x %d rows; by block %d reported %v, rising edges %v]",
-				i, w.gotTrig[i], w.gotTrig[i]/int64(w.rows), w.gotTrig[i]%int64(w.rows), len(w.wantTrig), w.cols, w.rows, b, w.gotTrig, w.wantTrig)
+			simrt.Fail("C04.ext-trigger", "lancero:ext-trigger-invented:"+colsClass, "external trigger #%d is reported as count %d = frame %d row %d, but the flag has had only %d rising edges so far [card %d of %v, %d columns x %d rows; by block %d reported %v, rising edges %v]",
+				i, w.gotTrig[i], w.gotTrig[i]/int64(w.rows), w.gotTrig[i]%int64(w.rows), len(w.wantTrig), w.active, w.table.cards, w.cols, w.rows, b, w.gotTrig, w.wantTrig)
 		}
 	}
 	w.samples += L
@@ -754,6 +858,19 @@ func (w *c04World) failFeedback(b, j, ch, idx, n int, out RawType, prev, e uint1
 		where, out, prev, a, int16(e), x, mixText, prev, e, detail)
 }
 
+// trigClass is the part of an external-trigger signature that names the situation: one or
+// several columns, and whether the active card is card 0.
+func (w *c04World) trigClass() string {
+	c := "ncols=1"
+	if w.cols > 1 {
+		c = "ncols>1"
+	}
+	if w.active != 0 {
+		c += ":active-card-not-0"
+	}
+	return c
+}
+
 func (w *c04World) gapText() string {
 	if len(w.card.gaps) == 0 {
 		return "no loss injected"
@@ -765,13 +882,10 @@ func (w *c04World) gapText() string {
 // finish: end-of-run rules.
 func (w *c04World) finish() {
 	if !w.trigUnchecked && len(w.gotTrig) != len(w.wantTrig) {
-		colsClass := "ncols=1"
-		if w.cols > 1 {
-			colsClass = "ncols>1"
-		}
+		colsClass := w.trigClass()
 		i := len(w.gotTrig)
-		simrt.Fail("C04.ext-trigger", "lancero:ext-trigger-missed:"+colsClass, "the flag rose in frame %d row %d (count %d) but no external trigger was reported for it [%d columns x %d rows; reported %v, rising edges %v]",
-			w.wantTrig[i]/int64(w.rows), w.wantTrig[i]%int64(w.rows), w.wantTrig[i], w.cols, w.rows, w.gotTrig, w.wantTrig)
+		simrt.Fail("C04.ext-trigger", "lancero:ext-trigger-missed:"+colsClass, "the flag rose in frame %d row %d (count %d) but no external trigger was reported for it [card %d of %v, %d columns x %d rows; reported %v, rising edges %v]",
+			w.wantTrig[i]/int64(w.rows), w.wantTrig[i]%int64(w.rows), w.wantTrig[i], w.active, w.table.cards, w.cols, w.rows, w.gotTrig, w.wantTrig)
 	}
 	if w.env.Faulted() {
 		for _, g := range w.card.gaps {
